@@ -488,6 +488,26 @@ def cross_instance(chk, n):
         run_batch(chk, members, filters, "cross-instance")
 
 
+def text_grid(chk):
+    """text-match, exhaustively over a small family: values and patterns that differ in ASCII case,
+    in non-ASCII case, in length — under every collation, negated or not, on SUMMARY and on a
+    parameter"""
+    vals = ["bob", "BOB", "Bob", "déjeuner", "DÉJEUNER", "Déjeuner", "école", "ÉCOLE", "straße", "STRASSE", "i", "İ"]
+    members = [("v%02d.ics" % i, ical([{"type": "VEVENT", "lines": ["UID:v%d" % i, "SUMMARY:" + v, "DTSTART" + tval(0, "utc"),
+                                                                   "LOCATION;LANGUAGE=%s:Room" % v.replace("ß", "ss")]}]))
+               for i, v in enumerate(vals)]
+    filters = []
+    for t in vals:
+        for coll in (None, "i;ascii-casemap", "i;octet", "i;unicode-casemap"):
+            for neg in (False, True):
+                filters.append({"name": "VCALENDAR", "comps": [{"name": "VEVENT", "props": [
+                    {"name": "SUMMARY", "tms": [{"text": t, "coll": coll, "neg": neg}]}]}]})
+        filters.append({"name": "VCALENDAR", "comps": [{"name": "VEVENT", "props": [
+            {"name": "LOCATION", "params": [{"name": "LANGUAGE", "tms": [{"text": t.replace("ß", "ss"), "coll": None, "neg": False}]}]}]}]})
+    run_batch(chk, members, filters, "text-grid")
+    chk.count("text_grid_filters", len(filters))
+
+
 def known_finding_probe(chk):
     """KF-C11-text-match-equality, deterministically."""
     members = [("kf.ics", ical([{"type": "VEVENT", "lines": ["UID:kf", "SUMMARY:Meeting with Bob",
@@ -521,6 +541,7 @@ def run(chk):
     time_grid(chk, True, zone=chk.rng.choice(["Pacific/Auckland", "America/Los_Angeles"]) if quick else "Pacific/Auckland")
     if not quick:
         time_grid(chk, True, zone="America/Los_Angeles")
+    text_grid(chk)
     generated(chk, 3 if quick else 40, 8, 30 if quick else 60)
     cross_instance(chk, 2 if quick else 20)
     chk.assumptions.append("server default time zone is UTC (no calendar-timezone property); recurrence (RRULE) is not generated")
